@@ -105,6 +105,13 @@ def index_menu(lengths, tier):
             pairs = pairs[::len(pairs) // 400]
         for p in pairs:
             yield ('list_list', ([a for a, _ in p], [b for _, b in p]))
+    for p in pairs[:40] if 'pairs' in dir() else []:
+        pass
+    neg = [(i - n, j - lengths[i]) for i, j in cells]
+    for k in (1, 2):
+        for p in list(itertools.product(neg, repeat=k))[:60]:
+            yield ('array_array', (np.array([a for a, _ in p]), np.array([b for _, b in p])))
+    yield ('array_array', (np.array(-1), np.array(-1)))
     yield ('list_list', ([0], [m + 3]))
     yield ('list_list', ([-1, 0], [-1, -1]))
     for j in range(-m - 1, m + 1):
@@ -152,11 +159,20 @@ def check_index(A, rows, form, idx, ctx, case, lengths, rank):
         merr = None
     except rr.ModelError as e:
         exp, merr = None, e
+    # index arrays are the caller's arguments: snapshot them (they must come back untouched)
+    def _snap(x):
+        if isinstance(x, tuple):
+            return tuple(_snap(v) for v in x)
+        return x.copy() if isinstance(x, np.ndarray) else x
+    idx0 = _snap(idx)
     try:
         got = A[idx]
         ierr = None
     except Exception as e:
         got, ierr = None, e
+    if isinstance(idx, tuple) and any(isinstance(v, np.ndarray) for v in idx):
+        if not all(np.array_equal(a, b) for a, b in zip(idx, idx0) if isinstance(a, np.ndarray)):
+            ctx.violation('getitem:%s:mutates_index_arrays' % form, case, 'index arrays %r were rewritten to %r' % (idx0, idx))
     fl = flags_of(form, idx, lengths)
     if merr is not None:
         ctx.guard('out_of_row_must_raise')
@@ -183,6 +199,21 @@ def check_index(A, rows, form, idx, ctx, case, lengths, rank):
     except Exception as e:
         ctx.violation('getitem:%s:unreadable:%s' % (form, '+'.join(fl)), case, 'result of %r cannot be read back: %r' % (idx, e))
         return
+    if obs[0] == 'ragged':
+        try:
+            fl = np.asarray(got.flatten()).tolist()
+            ln = [int(x) for x in got.lengths]
+            wfl = np.ravel(np.array(rr.flat_of(rr.canon_rows(exp)))).tolist() if len(rr.flat_of(exp)) else []
+            if ln != [len(r) for r in exp] or np.ravel(np.array(fl)).tolist() != wfl:
+                ctx.violation('getitem:%s:result_views_disagree:%s' % (form, '+'.join(fl_flags(fl_list := fl))) if False else
+                              'getitem:%s:result_views_disagree' % form, case,
+                              'index %r: rows %r but lengths %r / flatten %r' % (idx, obs[1], ln, fl))
+                return
+        except Exception as e:
+            kind = 'norows' if len(exp) == 0 else ('emptyrow' if any(len(r) == 0 for r in exp) else 'other')
+            ctx.violation('getitem:%s:result_unusable:%s' % (form, kind), case,
+                          'index %r returned a ragged array whose flatten()/lengths raise %r' % (idx, e))
+            return
     if not rr.matches(obs, exp):
         ctx.violation('getitem:%s:wrong_value:%s' % (form, '+'.join(fl)), case,
                       'index %r: got %r, list-of-rows gives %r (rows %r)' % (idx, obs, rr.canon_rows(exp), [r.tolist() for r in rows]))
@@ -329,7 +360,7 @@ def run_case(lengths, rank, how, tier, ctx, only=None):
         if rank == 2 and form in ('list_list',) and how != 'arrays':
             continue
         case = dict(case0, index=jidx(idx), form=form)
-        multi = form in ('slice', 'rowlist', 'slice_slice', 'list_slice', 'slice_int', 'slice_list', 'list_list', 'rowarray')
+        multi = form in ('slice', 'rowlist', 'slice_slice', 'list_slice', 'slice_int', 'slice_list', 'list_list', 'rowarray', 'array_array')
         ctx.state((tuple(lengths), rank, how, form, repr(idx)), nontrivial=ragged and multi)
         if form in ('slice_slice',):
             ctx.guard('two_dim_slices')
